@@ -1,4 +1,12 @@
 import Indi.Properties.C17
+import Indi.Properties.Dec.Wait
 #print axioms Indi.Wait.C17
 #print axioms Indi.Wait.C17_event_is_genuine
 #print axioms Indi.Wait.C17_timeout_is_genuine
+#print axioms Indi.Decisions.waitRelease_agrees
+#print axioms Indi.Decisions.waitPollGuard_agrees
+#print axioms Indi.Decisions.waitTimeoutGuard_agrees
+#print axioms Indi.Decisions.waitTimeoutArmed_agrees
+#print axioms Indi.Decisions.wait_deliver_from_source
+#print axioms Indi.Decisions.wait_poll_from_source
+#print axioms Indi.Decisions.wait_timeout_from_source
